@@ -264,7 +264,7 @@ func (m *Model) allocPost(c *RawClient, o AllocOpts, a *MAlloc, st Tri, resp *wi
 			m.Rec.Violate("alloc-mapped-addr", "missing", "%s: Allocate success without XOR-MAPPED-ADDRESS", c.Name)
 		}
 		// The relayed address must not belong to another live allocation.
-		if other, ost := m.AllocByRelay(relay.String()); other != nil && ost == Live && other.C != c {
+		if other, ost := m.AllocByRelay(relayKey(relay.String(), o.Transport == 6)); other != nil && ost == Live && other.C != c {
 			m.Rec.Violate("alloc-relay-shared", "shared", "%s: relayed address %s also belongs to live allocation of %s", c.Name, relay, other.C.Name)
 		}
 		fam := 4
@@ -277,11 +277,11 @@ func (m *Model) allocPost(c *RawClient, o AllocOpts, a *MAlloc, st Tri, resp *wi
 			Perms: map[string]time.Time{}, PermUnsure: map[string]time.Time{}, AllocTID: tid,
 		}
 		m.Allocs[c.Key()] = na
-		m.ByRelay[na.Relay] = na
+		m.ByRelay[relayKey(na.Relay, na.TCP)] = na
 		m.Rec.FP("allocate/ok/tr%d/fam%d/life%s", o.Transport, fam, lifeClass(o.Lifetime))
 	} else {
 		m.Rec.FP("allocate/err/%d", code)
-		if plain && st == Dead {
+		if plain && st == Dead && !(code == 508 && m.RelayMayRunOut) {
 			m.Rec.Violate("alloc-unexpected", fmt.Sprintf("plain-%d", code), "%s: plain Allocate on a free 5-tuple answered %d", c.Name, code)
 		}
 	}
